@@ -4,6 +4,8 @@ import (
 	"bytes"
 	"encoding/binary"
 	"fmt"
+	"go.brendoncarroll.net/p2p/f/x509"
+	"os"
 	"sort"
 	"strings"
 	"time"
@@ -32,6 +34,9 @@ const (
 
 var c02Names = [pN]string{"A", "B", "C", "D", "A2", "M1", "B2", "M2"}
 var c02Peer = [pN]int{pB, pA, pD, pC, pM1, pA2, pM2, pB2}
+
+// c02Keys: the long-term key each participant holds (same order as c02Names).
+var c02Keys = [pN]testKey{keyN(kA), keyN(kB), keyN(kC), keyN(15), keyN(kA), keyN(kM), keyN(kB), keyN(kM)}
 
 type c02Msg struct {
 	From  int // participant or -1 (adversary-made)
@@ -72,7 +77,7 @@ func (w *c02World) fail(sig, desc string, extra map[string]any) {
 	}
 	w.dead = true
 	lg := w.log
-	if len(lg) > 80 {
+	if len(lg) > 80 && os.Getenv("VERIF_FULLLOG") == "" {
 		lg = append([]string{fmt.Sprintf("... %d earlier actions ...", len(lg)-80)}, lg[len(lg)-80:]...)
 	}
 	d := map[string]any{"actions": lg}
@@ -220,8 +225,21 @@ func (w *c02World) deliver(x int, b []byte, what string) (reply []byte) {
 		return out
 	}
 	c, _ := msgCounter(b)
-	peer := c02Peer[x]
-	if !w.sent[peer][string(out)] {
+	// The authenticated peer is whoever proved the key the session reports. Replays may pair a session with another
+	// participant than the scripted one (A's InitHello replayed to A2, which holds the same key as A, makes A and A2 peers of
+	// each other): every participant holding the reported key counts as "the authenticated peer".
+	rk := s.RemoteKey()
+	var holders []string
+	fromPeer := false
+	for p := 0; p < pN; p++ {
+		if x509.EqualPublicKeys(&rk, &c02Keys[p].Pub) {
+			holders = append(holders, c02Names[p])
+			if p != x && w.sent[p][string(out)] {
+				fromPeer = true
+			}
+		}
+	}
+	if !fromPeer {
 		// whose plaintext is it, if anyone's?
 		owner := "nobody (modified or invented)"
 		for p := 0; p < pN; p++ {
@@ -229,7 +247,7 @@ func (w *c02World) deliver(x int, b []byte, what string) (reply []byte) {
 				owner = c02Names[p]
 			}
 		}
-		w.fail("C02/foreign-plaintext", fmt.Sprintf("session %s handed the application a plaintext that its authenticated peer %s never sent (sent by: %s)", c02Names[x], c02Names[peer], owner), map[string]any{"what": what, "ctr": c, "plaintext": hexShort(out)})
+		w.fail("C02/foreign-plaintext", fmt.Sprintf("session %s handed the application a plaintext that no holder of its authenticated peer key (%v) ever sent (sent by: %s)", c02Names[x], holders, owner), map[string]any{"what": what, "ctr": c, "plaintext": hexShort(out)})
 		return nil
 	}
 	if w.gotCtr[x][c] {
@@ -433,7 +451,7 @@ func runC02(r *ev.Run) {
 // several receive workers per node, some of them slow. Every delivered payload must be one its source told to this node
 // (authentic, unaltered, stable for the duration of the callback) and a payload told once is delivered at most once.
 func runC02Swarm(r *ev.Run) {
-	n := pick(r, 1, 4)
+	n := pick(r, 1, 2)
 	for i := 0; i < n; i++ {
 		caseID := fmt.Sprintf("swarm-%d-%d", r.Batch, i)
 		if !r.Want(caseID) {
@@ -441,7 +459,7 @@ func runC02Swarm(r *ev.Run) {
 		}
 		g := rng.New(r.Seed, "C02swarm", fmt.Sprint(r.Batch), fmt.Sprint(i))
 		st := buildP2PKEWire(stackOpts{n: 3}, g.Fork())
-		cfg := c01Cfg{senders: g.Range(2, 4), receivers: g.Range(2, 4), repeats: pick(r, 2, 4), replies: true, atMostOnce: true}
+		cfg := c01Cfg{senders: g.Range(2, 4), receivers: g.Range(2, 4), repeats: pick(r, 2, 3), replies: true, atMostOnce: true}
 		d := runLedgerWorkload(r, st, g, caseID, cfg, "C02")
 		if d == 0 {
 			r.Inconclusive("c02 swarm: nothing delivered")
